@@ -18,14 +18,14 @@ import (
 // effect in the order read, one scheduler event each, and each connection has
 // one outbound FIFO.
 type SimStomp struct {
-	rc    *RunCtx
-	s     *simrt.Sim
-	mu    sync.Mutex
-	conns []*stompConn
-	subs  []*stompSub
-	msgN  int
-	Acks  []string
-	OnSend func(destination string, body []byte) bool
+	rc        *RunCtx
+	s         *simrt.Sim
+	mu        sync.Mutex
+	conns     []*stompConn
+	subs      []*stompSub
+	msgN      int
+	Acks      []string
+	OnSend    func(destination string, body []byte) bool
 	OnDeliver func(destination string, body []byte)
 }
 
@@ -36,14 +36,14 @@ type stompSub struct {
 }
 
 type stompConn struct {
-	id    int
-	b     *SimStomp
-	srv   net.Conn
-	inQ   []*frame.Frame
-	outQ  []*frame.Frame
+	id          int
+	b           *SimStomp
+	srv         net.Conn
+	inQ         []*frame.Frame
+	outQ        []*frame.Frame
 	inEv, outEv bool
-	wch   chan *frame.Frame
-	closed bool
+	wch         chan *frame.Frame
+	closed      bool
 }
 
 func NewSimStomp(rc *RunCtx) *SimStomp { return &SimStomp{rc: rc, s: rc.Sim} }
